@@ -34,6 +34,10 @@ def one(sid):
             res[cur][0] += 1
             res[cur][1] += "no-failing-input-found" in l
     ok = bool(checks) and all(res.get(c, [0, 0])[0] > 0 for c in checks)
+    crashed = [l for l in r.stdout.split("\n") if "rror" in l and not l.startswith(("VIOLATION", "KNOWN"))]
+    if crashed and not ok:
+        # the check itself fell over (e.g. the shared Lean driver was being rebuilt under it): not a verdict on the change
+        return sid, False, "CHECK DID NOT RUN TO ITS END: " + crashed[0][:200]
     return sid, ok, ", ".join(f"{c}: {res.get(c, [0, 0])[0]} violation(s), {res.get(c, [0, 0])[1]} without failing input" for c in checks) + ("" if r.returncode == 0 else f" [rc={r.returncode} {r.stderr[-200:]}]")
 
 
